@@ -1000,13 +1000,13 @@ class C14(Prop):
                 # a failure at the j-th read call, for every j up to a bound
                 nread = min(len(text) + 3, 14 if tier == 'quick' else 40)
                 for j in range(0, nread):
-                    kind = rng.range(1, 9)
+                    kind = rng.range(1, 8)
                     rs = (base[:j] if base else ['D%d' % (len(text) + 1)] * 0 + ['D%d' % 9999] * j) + ['F%d' % kind]
                     out.append(gen.mkcase(f, cap, text, rs, None, gen.rnd_policy(rng), ops + ['N', 'N']))
                 # a failing seek at the i-th seek call
                 if any(o.startswith('J') for o in ops):
                     for i in range(3):
-                        out.append(gen.mkcase(f, cap, text, base, ['ok'] * i + ['F%d' % rng.range(1, 9)], gen.rnd_policy(rng), ops + ['N']))
+                        out.append(gen.mkcase(f, cap, text, base, ['ok'] * i + ['F%d' % rng.range(1, 8)], gen.rnd_policy(rng), ops + ['N']))
                 # interrupts: the same case with and without interrupted reads
                 plain = [x for x in base] or ['D%d' % rng.below(3) for _ in range(len(text) + 2)]
                 inter = []
@@ -1097,13 +1097,16 @@ def needed_windows(fmt, text, spec_items):
         if fmt == 'fa':
             out.append(e - s + 1)
         else:
-            w = e - s
-            if i + 1 == len(starts):
-                # the last record: blank tail is not part of it; without final LF one look-ahead position
-                body = text[s:e]
-                stripped = body.rstrip(b'\r\n')
-                w = len(stripped) + (1 if body == stripped else 1 if body[len(stripped):].startswith(b'\r\n') or body[len(stripped):].startswith(b'\n') else 1)
-                w = len(stripped) + 1
+            # FASTQ: the record ends with the LF of its fourth line; if the input ends before that LF,
+            # one look-ahead position is needed to see the end of input
+            p = s
+            for _ in range(4):
+                q = text.find(b'\n', p)
+                if q < 0:
+                    p = None
+                    break
+                p = q + 1
+            w = (p - s) if p is not None else (len(text) - s + 1)
             out.append(w)
     return out
 
@@ -1244,9 +1247,9 @@ class C06(Prop):
                 rs = gen.rnd_chunking(rng, len(text))
                 if rng.chance(1, 3):
                     j = rng.below(len(text) + 3)
-                    rs = (rs or ['D%d' % rng.below(4) for _ in range(len(text) + 3)])[:j] + ['F%d' % rng.range(1, 9)] + \
+                    rs = (rs or ['D%d' % rng.below(4) for _ in range(len(text) + 3)])[:j] + ['F%d' % rng.range(1, 8)] + \
                         ['D%d' % rng.below(4) for _ in range(len(text) + 3)]
-                ss = ['F%d' % rng.range(1, 9) if rng.chance(1, 4) else 'ok' for _ in range(4)] if rng.chance(1, 4) else None
+                ss = ['F%d' % rng.range(1, 8) if rng.chance(1, 4) else 'ok' for _ in range(4)] if rng.chance(1, 4) else None
                 pol = rng.choice(['std', 'ref', 'du.0', 'du.3', 'dul.4.9', 'plus.1.14', 'scr.n', 'scr.5.n.7', 'scr.2.3.4', 'plus.0.99'])
                 out.append(gen.mkcase(f, cap, text, rs, ss, pol, self.hist(rng, text, f)))
             out += gen.exhaustive(f, 4 if tier == 'quick' else 6,
@@ -1274,8 +1277,8 @@ class C06(Prop):
                 dumps = [pl['out']]
             elif pl['kind'] == 'set':
                 dumps = set_records(pl['out']) or []
-            if c in 'KJ' and pl['kind'] == 'ok':
-                last = -1
+            if c in 'KJ':
+                last = -1        # a seek (even one whose refill failed) re-positions the reader
             if c == 'I':
                 continue          # re-iteration shows records delivered before
             for d in dumps:
@@ -1331,11 +1334,20 @@ class C18(Prop):
                 return b'@' + h + t + rnd_seq(rng, mm) + t + b'+' + t + rnd_seq(rng, mm).replace(b'-', b'I') + t
             R = rng.choice([40, 80, 200])
             # the first records are the largest ("further records that are no larger")
-            recs = [rec(i) for i in range(R // 4)] + [rec(i, rng.below(3) if rng.chance(1, 2) else 0) for i in range(R - R // 4)]
+            if mode == 'set':
+                # one reused set: the number of records per batch must not exceed what the warm-up has seen,
+                # so all records have the same size (DESIGN.md section 7: steady state)
+                recs = [rec(i) for i in range(R)]
+            else:
+                recs = [rec(i) for i in range(R // 4)] + [rec(i, rng.below(3) if rng.chance(1, 2) else 0) for i in range(R - R // 4)]
             text = b''.join(recs)
             one = len(rec(0))
             cap = rng.choice([max(3, one // 2), one + 1, one + 2, 2 * one + 3, 5 * one, 64, 256])
-            warm = (R // 4) if mode == 'next' else 16
+            if mode == 'next':
+                warm = R // 4
+            else:
+                eff = max(cap, one + 1)
+                warm = int(0.6 * (len(text) // eff + 1)) + 3
             out.append('al %s %d %s %s %d' % (f, cap, gen.hx(text), mode, warm))
         return out
 
@@ -1388,8 +1400,134 @@ class C18(Prop):
                 'grow_to calls required; records are accessed through the borrowing accessors; non-trivial = calls were measured after the warm-up')
 
 
+
+# ---------------------------------------------------------------------------
+# parallel module (C07, C08, C15, C16): shuttle-scheduled runs of the text of /repo/src/parallel.rs
+# replayed on the Coq model (Par.accepts), plus black-box runs of the real functions
+
+import parprops
+import hashlib as _hashlib
+import json as _json
+
+
+def _par_key(seed, tier):
+    h = _hashlib.sha1()
+    for d in (os.path.join(vlib.REPO, 'src'), os.path.join(ROOT, 'harness_par', 'src'), os.path.join(ROOT, 'harness_par')):
+        for f in sorted(os.listdir(d)):
+            pth = os.path.join(d, f)
+            if os.path.isfile(pth) and f != 'parallel.rs':
+                h.update(f.encode())
+                h.update(open(pth, 'rb').read())
+    for f in ('tools/parprops.py', 'ocaml/par_check.ml', 'coq/theories/Model/Par.v'):
+        h.update(open(os.path.join(ROOT, f), 'rb').read())
+    h.update(('%s %s' % (seed, tier)).encode())
+    return h.hexdigest()
+
+
+def par_runs(seed, tier):
+    """(ok, log, runs): builds and runs once per (repository tree, harness, seed, tier); the four
+    parallel properties judge the same runs with their own oracles"""
+    d = os.path.join(WORK, 'par')
+    os.makedirs(d, exist_ok=True)
+    key = _par_key(seed, tier)
+    cache = os.path.join(d, 'runs_%s.json' % key[:16])
+    with vlib.Lock('par'):
+        if os.path.exists(cache):
+            try:
+                return True, 'cached', _json.load(open(cache))
+            except Exception:
+                pass
+        ok, log = parprops.gen_and_build(ROOT)
+        if not ok:
+            return False, log, []
+        runs = parprops.run_shuttle(ROOT, seed, tier) + parprops.run_bb(ROOT, seed, tier)
+        for f in os.listdir(d):
+            if f.startswith('runs_'):
+                os.unlink(os.path.join(d, f))
+        _json.dump(runs, open(cache, 'w'))
+        return True, log, runs
+
+
+class ParProp(Prop):
+    reader_cases = False
+    uses_model = False
+    crates = []
+    assumptions = ASSUME_COMMON + [
+        'std::sync::mpsc::sync_channel, scoped_threadpool and crossbeam scoped threads behave as the shuttle-based shims do (bounded FIFO; recv fails only when empty and all senders gone; send fails iff the receiver is gone and wakes on disconnect; Scope::drop joins; scope closure captures dropped before joining) - validated only by the black-box runs against the real primitives',
+        'OS threads really exit and blocked channel operations really wake (runtime behaviour; the black-box runs use a 20 s watchdog)',
+        'user closures do not panic']
+
+    def extra(self, tier, rng, stats):
+        seed = int(os.environ.get('VERIF_SEED', '20260927'))
+        ok, log, runs = par_runs(seed, tier)
+        if not ok:
+            return [], {'broken': ['harness_par build / generation of src/parallel.rs from %s failed: %s' % (vlib.REPO, log[-600:])],
+                        'samples': ['(parallel harness could not be built)']}
+        orc = parprops.ORACLES[self.id]
+        F = []
+        rejected = []
+        seen = set()
+        kinds = {}
+        for r in runs:
+            t = r.get('type')
+            if t == 'stat':
+                continue
+            stats['evaluations'] += 1
+            key = _json.dumps(r, sort_keys=True)[:4000]
+            if key not in seen:
+                seen.add(key)
+                if parprops.nontrivial(r):
+                    stats['distinct_nontrivial'] += 1
+            kinds[t] = kinds.get(t, 0) + 1
+            try:
+                fl = orc(r)
+            except Exception as e:
+                fl = ['oracle crashed: %r' % e]
+            if fl:
+                F.append(({'case': 'par ' + (r.get('cfg') or parprops._cfg_brief(r)) + ' ' + str(r.get('sched', '')),
+                           'impl': (r.get('events') or [_json.dumps({k: v for k, v in r.items() if k != 'events'})[:3000]]),
+                           'model': [str(r.get('model'))], 'spec': [], 'noshrink': True}, fl))
+            if t == 'proto' and (r.get('model') or 'OK').split()[0] != 'OK':
+                rejected.append(r)
+        cov = {'run_kinds': kinds,
+               'traces_validated_against_impl': kinds.get('proto', 0),
+               'model_rejected_traces': len(rejected),
+               'samples': [('%s | %s | %s' % (r.get('cfg'), r.get('sched'), ' '.join((r.get('events') or [])[:12])))[:400]
+                           for r in runs if r.get('type') == 'proto'][:2] +
+                          [_json.dumps({k: v for k, v in r.items()})[:400] for r in runs if r.get('type') == 'bb'][:2],
+               'par_describe': parprops.describe()}
+        if rejected:
+            r = rejected[0]
+            cov['broken'] = ['correspondence: %d shuttle-scheduled traces of /repo/src/parallel.rs are not traces of the Coq model Par.v (first: %s, cfg %s, schedule %s)'
+                             % (len(rejected), r.get('model'), r.get('cfg'), r.get('sched'))]
+        return F, cov
+
+    def rule(self, tier):
+        return ('(1) the text of /repo/src/parallel.rs, with its three concurrency primitives substituted by shuttle-based shims, runs under seeded random and PCT '
+                'schedules for every configuration in a grid (threads 1-3, queue 1-3, 0-5 sets, reader error / init failures, consumer drains / stops after j / '
+                'never asks); every event log is replayed on the extracted Coq model (Par.accepts) and judged by the property oracle; (2) the per-record functions '
+                'run under shuttle over real readers; (3) black-box runs of the real functions with real threads, seeded delays and a watchdog; '
+                'non-trivial = the run filled at least one set or exercised a failure path; distinct = distinct observation')
+
+
+class C07(ParProp):
+    id = 'C07'
+
+
+class C08(ParProp):
+    id = 'C08'
+
+
+class C15(ParProp):
+    id = 'C15'
+
+
+class C16(ParProp):
+    id = 'C16'
+
+
 REG = {}
-for cls in (C01, C02, C03, C04, C05, C06, C09, C10, C11, C12, C13, C14, C17, C18, C19, C20):
+for cls in (C01, C02, C03, C04, C05, C06, C07, C08, C09, C10, C11, C12, C13, C14, C15, C16, C17, C18, C19, C20):
     REG[cls.id] = cls
 
 
